@@ -399,6 +399,9 @@ void volumeCase(Ctx& ctx)
 	add("c_rand.bin", streamFor(5));
 	add("d_tok.bin", ref::lzhEncode({ ref::Lit('a'), ref::Match(60, 1), ref::Match(3, 4096) }));
 	add("e_over.bin", capacityStream(1));
+	// an empty packed block: what the empty stream decodes to is not fixed by the format, but extraction must write what the
+	// decoder itself delivers for it (judged against the library's own GetData drain below, not against the reference)
+	{ ref::VolMember m; m.name = "e_zero.bin"; m.stored = {}; m.kind = 0x103; m.overrideIndexSize = true; m.indexSize = 0; ms.push_back(m); plain.push_back(implDecode({}, 4096).out); over.push_back(false); ctx.count("volume/empty-packed-member"); }
 	{ ref::VolMember m; m.name = "f_plain.txt"; m.stored = { 'h', 'e', 'l', 'l', 'o' }; ms.push_back(m); plain.push_back(m.stored); over.push_back(false); }
 	auto img = ref::encodeVol(ms);
 	auto strict = ref::parseVolStrict(img.bytes);
